@@ -304,7 +304,15 @@ pub fn run_single(spec: &GraphSpec, cfg: &RunCfg, schedule: Schedule) -> SingleR
     let mut g = build_graph(spec);
     let facts = GraphFacts::new(spec, &g);
     if cfg.on_clone {
-        let c = g.clone();
+        // a copy of the built graph: made by `clone()`, or (every other spec, by its
+        // number of edge calls) by `clone_from` onto another, smaller graph value
+        let c = if spec.edges.len() % 2 == 0 {
+            g.clone()
+        } else {
+            let mut other = crate::model::small_other_graph();
+            other.clone_from(&g);
+            other
+        };
         drop(g);
         g = c;
     }
